@@ -22,7 +22,11 @@ DEFAULT_CFG = dict(
 )
 
 TARGETS = {"gauss": targets.ll_gauss, "bimodal": targets.ll_bimodal, "flat": targets.ll_flat, "unequal": targets.ll_unequal, "hole": targets.ll_hole, "sharp": targets.ll_sharp, "sliver": targets.ll_sliver, "weak": targets.ll_weak}
-PRIORS = {"affine": targets.pt_affine, "nonlinear": targets.pt_nonlinear, "identity": targets.pt_identity}
+def _pt_affine32(u):
+    return (20.0 * np.asarray(u) - 10.0).astype(np.float32)
+
+
+PRIORS = {"affine32": _pt_affine32, "affine": targets.pt_affine, "nonlinear": targets.pt_nonlinear, "identity": targets.pt_identity}
 BOUNDARY = {"none": (None, None), "per0": ([0], None), "ref1": (None, [1]), "per0ref1": ([0], [1]), "ref0": (None, [0]), "per1": ([1], None)}
 
 
@@ -31,6 +35,7 @@ class LL:
 
     def __init__(self, f, mode, shift=0.0):
         self.f, self.mode, self.shift = f, mode, shift
+        self.dtype = "float64"
         self.n = 0
         self.order = []
 
@@ -38,7 +43,7 @@ class LL:
         if self.mode == "vec":
             x = np.asarray(x)
             self.n += len(x)
-            return np.array([self.f(xi) + self.shift for xi in x])
+            return np.array([self.f(xi) + self.shift for xi in x], dtype=self.dtype)
         self.n += 1
         v = self.f(x) + self.shift
         if self.mode == "blobs":
@@ -84,6 +89,7 @@ def make_sampler(cfg, pool=None):
     ev = c["eval"]
     mode = {"vec": "vec", "scalar": "scalar", "blobs": "blobs", "poolobj": "scalar", "poolobj_blobs": "blobs", "poolint": "scalar"}[ev]
     ll = LL(f, mode, c["shift"])
+    ll.dtype = c.get("ll_dtype", "float64")
     per, ref = BOUNDARY[c["boundary"]]
     kw = dict(
         prior_transform=PRIORS[c["prior"]], log_likelihood=ll, n_dim=c["d"], n_particles=c["n_particles"], ess_ratio=c["ess_ratio"],
